@@ -7,6 +7,7 @@ CONSTANTS
   MaxFaults = 100000
   MaxUploads = 1000000
   Requests = TRUE
+  Slack = FALSE
 CONSTRAINT Track
 POSTCONDITION Accept
 INVARIANTS Advancing FirstIsNewestAtStart AtMostOneAfterStop OkOnlyAfterStop
